@@ -36,6 +36,9 @@ TRUST = [
 
 
 # ------------------------------------------------------------------ generators
+OFFSET = 2.0 ** 24
+
+
 def gen_set(rng, n, dim, kind, shift=0.0):
     if kind == "grid":
         g = int(rng.choice([2, 3, 4]))
@@ -69,6 +72,10 @@ def gen_pair(rng, idx):
     if rng.random() < 0.3 and n1 > 1:
         s1[int(rng.integers(0, n1))] = s1[int(rng.integers(0, n1))]
     k = int(rng.choice([1, 2, 5]))
+    if idx % 7 == 3 and kind != "cont":
+        # integer data riding on a common level of 2^24: exactly representable in binary64 (distances between points unchanged),
+        # but not in any narrower float type — the partition must be that of the points as given
+        s1, s2, kind = s1 + OFFSET, s2 + OFFSET, kind + "+2^24"
     return {"k": k, "s1": s1, "s2": s2, "kind": kind}
 
 
@@ -105,6 +112,8 @@ def gen_sequence(rng, idx):
         batches.append(np.array(X, dtype=float))
         cur = batches[-1]
     seeds = [int(x) for x in rng.integers(0, 2**31 - 1, size=nb)]
+    if idx % 7 == 3 and kind != "cont":
+        ref, batches, kind = ref + OFFSET, [b + OFFSET for b in batches], kind + "+2^24"
     return {"k": k, "st": st, "alpha": alpha, "ref": ref, "batches": batches, "seeds": seeds, "kind": kind}
 
 
